@@ -42,7 +42,7 @@ type BlockEnv struct {
 // ---------------------------------------------------------------------------
 // Port of /repo/vm/state_transition.go against the ethvm.StateDB interface.
 // Deliberate deviations from go-ethereum kept as they are there: no coinbase
-// payment, nonce-too-high tolerated, constant refund quotient, sender nonce
+// payment, constant refund quotient, sender nonce
 // bumped only on the call path, BaseFee nil.
 // ---------------------------------------------------------------------------
 
@@ -92,6 +92,10 @@ func (st *refTransition) preCheck() error {
 	// never fake: the harness only models DeliverTx
 	stNonce := st.state.GetNonce(st.msg.From)
 	msgNonce := st.msg.Nonce
+	if stNonce < msgNonce {
+		return fmt.Errorf("%w: address %v, tx: %d state: %d", ethcore.ErrNonceTooHigh,
+			st.msg.From.Hex(), msgNonce, stNonce)
+	}
 	if stNonce > msgNonce {
 		return fmt.Errorf("%w: address %v, tx: %d state: %d", ethcore.ErrNonceTooLow,
 			st.msg.From.Hex(), msgNonce, stNonce)
